@@ -207,31 +207,33 @@ struct Value {
 
     Value &operator=(Value &&val) noexcept {
         if (this != &val) {
-            const ValueType type = val.Type();
+            // 'val' may be a part of this value and go away with the reset; its content is taken out first.
+            Value          tmp{Memory::Move(val)};
+            const ValueType type = tmp.Type();
 
-            val.setTypeToUndefined();
+            tmp.setTypeToUndefined();
 
             reset();
             setType(type);
 
             switch (type) {
                 case ValueType::Object: {
-                    object_ = Memory::Move(val.object_);
+                    object_ = Memory::Move(tmp.object_);
                     break;
                 }
 
                 case ValueType::Array: {
-                    array_ = Memory::Move(val.array_);
+                    array_ = Memory::Move(tmp.array_);
                     break;
                 }
 
                 case ValueType::String: {
-                    string_ = Memory::Move(val.string_);
+                    string_ = Memory::Move(tmp.string_);
                     break;
                 }
 
                 default: {
-                    number_ = val.number_;
+                    number_ = tmp.number_;
                 }
             }
         }
@@ -241,8 +243,9 @@ struct Value {
 
     Value &operator=(const Value &val) {
         if (this != &val) {
-            reset();
-            copyValue(val);
+            // 'val' may be a part of this value (or hold it); the copy is made before anything is released.
+            Value tmp{val};
+            *this = Memory::Move(tmp);
         }
 
         return *this;
@@ -415,12 +418,14 @@ struct Value {
         if (isObject() && val.isObject()) {
             object_ += Memory::Move(val.object_);
             val.setTypeToUndefined();
-        } else {
-            if (!isArray()) {
-                reset();
-                setTypeToArray();
-            }
+        } else if (!isArray()) {
+            // 'val' may be a part of this value and go away with the reset.
+            Value tmp{Memory::Move(val)};
 
+            reset();
+            setTypeToArray();
+            array_ += Memory::Move(tmp);
+        } else {
             array_ += Memory::Move(val);
         }
     }
@@ -428,12 +433,14 @@ struct Value {
     inline void operator+=(const Value &val) {
         if (isObject() && val.isObject()) {
             object_ += val.object_;
-        } else {
-            if (!isArray()) {
-                reset();
-                setTypeToArray();
-            }
+        } else if (!isArray()) {
+            // 'val' may be a part of this value and go away with the reset.
+            Value tmp{val};
 
+            reset();
+            setTypeToArray();
+            array_ += Memory::Move(tmp);
+        } else {
             array_ += val;
         }
     }
